@@ -499,3 +499,71 @@ def path_universe(toks, rng, nseg_names=6, maxseg=3, extra_names=(), allow_hidde
             seen.add(p)
             res.append(p)
     return res
+
+
+# ---------------------------------------------------------------------------------------------
+# Patterns aimed at a concrete tree (so that they hit real entries)
+def generalise_name(rng, name, ext=True):
+    """A segment AST that matches `name` (and maybe more)."""
+    r = rng.random()
+    lits = tuple(('lit', c) for c in name)
+    if r < 0.3:
+        return lits
+    if r < 0.42:
+        return (('star',),)
+    if r < 0.52 and name:
+        i = rng.randrange(len(name))
+        return lits[:i] + (('q',),) + lits[i + 1:]
+    if r < 0.62 and name:
+        i = rng.randrange(len(name) + 1)
+        return lits[:i] + (('star',),)
+    if r < 0.70 and name:
+        i = rng.randrange(len(name))
+        return (('star',),) + lits[i:]
+    if r < 0.78 and name:
+        i = rng.randrange(len(name))
+        c = name[i]
+        st = ('set', False, (('c', c), ('c', rng.choice('abx'))), '!') if rng.random() < 0.6 else ('set', True, (('c', 'z'),), rng.choice('!^'))
+        return lits[:i] + (st,) + lits[i + 1:]
+    if ext and r < 0.92:
+        kind = rng.choice('@?*+!')
+        other = tuple(('lit', c) for c in rng.choice(['a', 'b', 'zz', '.h', 'ab']))
+        if kind == '!':
+            return (('grp', '!', (other,)),)
+        alts = [lits, other]
+        rng.shuffle(alts)
+        return (('grp', kind, tuple(alts)),)
+    return lits
+
+
+def tree_pattern(rng, entries, ext=True, globstar=True, maxseg=4, absolute_prefix=None):
+    """Path-mode AST aimed at the given relative entry paths."""
+    if entries and rng.random() < 0.85:
+        base = rng.choice(entries).split('/')
+    else:
+        base = [rng.choice(['a', 'b', 'zz', '.h', 'A']) for _ in range(rng.randint(1, 3))]
+    base = base[:maxseg]
+    segs = []
+    for nm in base:
+        r = rng.random()
+        if globstar and r < 0.14:
+            segs.append((('gstar',),))
+            if rng.random() < 0.5:
+                continue
+        elif globstar and r < 0.17:
+            segs.append((('gstarlong',),))
+            continue
+        elif r < 0.22:
+            segs.append(tuple(('lit', c) for c in rng.choice(['.', '..'])))
+        segs.append(generalise_name(rng, nm, ext))
+    if globstar and rng.random() < 0.15:
+        segs.append((('gstar',),))
+    # drop directly adjacent identical globstars (legal but uninteresting)
+    out = []
+    for s in segs:
+        if out and s in ((('gstar',),), (('gstarlong',),)) and out[-1] == s:
+            continue
+        out.append(s)
+    trail = rng.random() < 0.18
+    toks = join_segments(out, rng, lead=False, trail=trail)
+    return toks
